@@ -371,6 +371,54 @@ theorem allTraces_sound (p : Fx) (P : List Act → Bool) (h : allTraces p P = tr
     simp only [ht] at h
     exact List.all_eq_true.mp h t (traces_sound p ts ht l t hr)
 
+/-- the body of the first loop of a skeleton (what one pass of a receive loop or of the keepalive does) -/
+def loopBody : Fx → Option Fx
+  | .loop b _ => some b
+  | .act _ k => loopBody k
+  | _ => none
+
+/-- how a pass ended, appended to its trace -/
+def Out.trace : Out (List Act) → List Act
+  | .ret _ t => t
+  | .cont t => t ++ [.call "continue"]
+  | .brk t => t ++ [.call "break"]
+
+/-- every complete trace of ONE pass through a body (its own loops, if any, must perform no act), with how the pass
+ended: `return <label>` (appended by the semantics), `continue` (also: the end of the body), `break` -/
+def iterTraces (p : Fx) : Option (List (List Act)) :=
+  (ends traceSem p []).map fun e =>
+    e.rets ++ e.conts.map (· ++ [.call "continue"]) ++ e.brks.map (· ++ [.call "break"])
+
+theorem iterTraces_sound (p : Fx) (ts : List (List Act)) (h : iterTraces p = some ts) :
+    ∀ o, Runs traceSem p [] o → o.trace ∈ ts := by
+  intro o hr
+  unfold iterTraces at h
+  cases he : ends traceSem p [] with
+  | none => simp [he] at h
+  | some e =>
+    simp only [he, Option.map_some, Option.some.injEq] at h; subst h
+    have := ends_sound traceSem p [] o hr e he
+    cases o with
+    | ret l t => simp only [Ends.has] at this; simp [Out.trace, this]
+    | cont t => simp only [Ends.has] at this; simp only [Out.trace, List.mem_append, List.mem_map]; exact Or.inl (Or.inr ⟨t, this, rfl⟩)
+    | brk t => simp only [Ends.has] at this; simp only [Out.trace, List.mem_append, List.mem_map]; exact Or.inr ⟨t, this, rfl⟩
+
+/-- every pass through the body satisfies `P` -/
+def allIter (p : Fx) (P : List Act → Bool) : Bool :=
+  match iterTraces p with
+  | some ts => ts.all P
+  | none => false
+
+theorem allIter_sound (p : Fx) (P : List Act → Bool) (h : allIter p P = true) :
+    ∀ o, Runs traceSem p [] o → P o.trace = true := by
+  intro o hr
+  unfold allIter at h
+  cases ht : iterTraces p with
+  | none => simp [ht] at h
+  | some ts =>
+    simp only [ht] at h
+    exact List.all_eq_true.mp h _ (iterTraces_sound p ts ht o hr)
+
 -- helpers for predicates over traces
 def isSpawn : Act → Bool | .spawn _ => true | _ => false
 def isCall (names : List String) : Act → Bool | .call w => names.contains w | _ => false
